@@ -214,14 +214,17 @@ theorem blockEnd_counterexample :
       ¬ startLine ≤ (blockEnd .laterLine lineNumber curEnd lastLen).1 :=
   ⟨1, 1, 10, 0, by decide, by decide⟩
 
-/-- The thematic break's end column as computed (`line.len() - 1 - offset`) agrees with the last byte
-    of the line exactly when no container prefix was consumed. -/
-theorem thematicEnd_exact_iff (lineLen offset : Nat) (h : offset + 1 ≤ lineLen) :
-    thematicEndCode lineLen offset = thematicEndSpec lineLen ↔ offset = 0 := by
-  simp only [thematicEndCode, thematicEndSpec]; omega
+/-- The end column a thematic break is given when it is opened is the last byte of its line, in
+    every container (repaired in /repo; `finalize_borrowed` no longer replaces it). -/
+theorem thematicEnd_exact (lineLen : Nat) : thematicEndCode lineLen = thematicEndSpec lineLen := rfl
 
-/-- `1. ---`: line length 7 (with the LF), offset 3 -> end column 3, before the start column 4. -/
-theorem thematicEnd_counterexample : thematicEndCode 7 3 = 3 ∧ thematicEndSpec 7 = 6 := by decide
+/-- The pinned computation was exact only at container offset 0. -/
+theorem thematicEnd_old_exact_iff (lineLen offset : Nat) (h : offset + 1 ≤ lineLen) :
+    thematicEndOld lineLen offset = thematicEndSpec lineLen ↔ offset = 0 := by
+  simp only [thematicEndOld, thematicEndSpec]; omega
+
+/-- `1. ---` (7 bytes with the LF, offset 3): the pinned tree answered column 3, the line ends at 6. -/
+theorem thematicEnd_old_counterexample : thematicEndOld 7 3 = 3 ∧ thematicEndSpec 7 = 6 := by decide
 
 /-! Non-vacuity -/
 example : spNested { sl := 1, sc := 1, el := 4, ec := 0 } { sl := 3, sc := 5, el := 3, ec := 5 } = true := by decide
